@@ -70,8 +70,6 @@ def readUTF(buffer, maxlen):
             raise MalformedPacket("[MQTT-1.5.4-1] D800-DFFF found in UTF-8 data")
         if ord_c == 0x00: # look for null in the UTF string
             raise MalformedPacket("[MQTT-1.5.4-2] Null found in UTF-8 data")
-        if ord_c == 0xFEFF:
-            raise MalformedPacket("[MQTT-1.5.4-3] U+FEFF in UTF-8 data")
     return buf, length+2
 
 
